@@ -395,7 +395,24 @@ impl Command {
             })?
             .threshold
             .get();
-        let signature_count = signed_root.signed().signatures.len();
+        // Only signatures made with keys that this root.json lists for its own root role count
+        // towards its threshold. Signatures appended while cross-signing are made with the keys of
+        // another root and say nothing about whether this file verifies under its own keys.
+        let root_keyids = &signed_root
+            .signed()
+            .signed
+            .roles
+            .get(&RoleType::Root)
+            .map(|role_keys| role_keys.keyids.clone())
+            .unwrap_or_default();
+        let signature_count = signed_root
+            .signed()
+            .signatures
+            .iter()
+            .filter(|signature| root_keyids.contains(&signature.keyid))
+            .map(|signature| &signature.keyid)
+            .collect::<std::collections::HashSet<_>>()
+            .len();
         if threshold > signature_count as u64 {
             // Return an error when the "ignore-threshold" flag wasn't set
             if !ignore_threshold {
